@@ -139,6 +139,11 @@ def configs(tier):
                         if _heavy(shp, R, init) and (q or it > 1 or nnm != "all"):
                             continue
                         add(f"loop/nn_cp_hals/{_sh(shp)}/R{R}/init_{init}/nn_{_nm(nnm)}/it{it}", fn="l_cp_hals", shape=shp, R=R, init=init, it=it, nn_modes=nnm, norm=0, sp=0)
+            if len(shp) == 3 and R == 1:
+                # a fixed mode shifts the position of the remaining modes in the update sequence: the constrained / unconstrained
+                # dispatch must go by mode id (non-negative user init: the fixed factor is returned as supplied)
+                for nnm in ([2], [1, 2]):
+                    add(f"loop/nn_cp_hals/{_sh(shp)}/R{R}/init_user/nn_{_nm(nnm)}/fixed0/it1", fn="l_cp_hals", shape=shp, R=R, init="user", it=1, nn_modes=nnm, norm=0, sp=0, fixed=(0,))
             i2 = "random" if _heavy(shp, R, "svd") else "svd"
             add(f"loop/nn_cp_hals/{_sh(shp)}/R{R}/init_{i2}/nn_all/norm1_sp1/it2", fn="l_cp_hals", shape=shp, R=R, init=i2, it=2, nn_modes="all", norm=1, sp=1)
             add(f"loop/nn_cp_hals/{_sh(shp)}/R{R}/init_user/nn_all/norm1_sp1/it1", fn="l_cp_hals", shape=shp, R=R, init="user", it=1, nn_modes="all", norm=1, sp=1)
@@ -516,7 +521,8 @@ def h_l_cp_hals(E, cfg):
         sym.CTX.intern_roots = False
         backend.patch(_nn_cp, "hals_nnls", stub_hals(E))
     res = _nn_cp.non_negative_parafac_hals(
-        T, R, n_iter_max=cfg["it"], init=init, tol=0 if cfg["it"] < 2 else E.real("tol", pos=True), random_state=7, sparsity_coefficients=sp, nn_modes=cfg["nn_modes"], normalize_factors=bool(cfg["norm"])
+        T, R, n_iter_max=cfg["it"], init=init, tol=0 if cfg["it"] < 2 else E.real("tol", pos=True), random_state=7, sparsity_coefficients=sp, nn_modes=cfg["nn_modes"], normalize_factors=bool(cfg["norm"]),
+        **({"fixed_modes": list(cfg["fixed"])} if cfg.get("fixed") else {})
     )
     _check_cp(E, res, dec, R, shape, groups=("solve",))
 
